@@ -169,3 +169,127 @@ Qed.
 Lemma rdelete_sched_real :
   lowres (run (fun k => Z.of_nat (10 + k)) (init_sys 4) rdelete_sched) = Some 12.
 Proof. vm_compute. reflexivity. Qed.
+
+(* ------------------------------------------------------------------ runs WITH a refresher role ---------------- *)
+Section Role.
+Variable pd : nat -> Z.
+Variable role : nat -> bool.
+
+(* every step of the system with roles is a step of the plain system (a disabled refresher launch = an idle tick) *)
+Lemma step_role_sim : forall s e, exists e', step_role pd role s e = step pd s e'.
+Proof.
+  intros s e. destruct e as [t|t]; cbn [step_role]; try (eexists; reflexivity).
+  destruct (nth_error (thr s) t) as [th|] eqn:Ht; [|eexists; reflexivity].
+  destruct (tpc th) eqn:Hp; try (eexists; reflexivity).
+  destruct (cell s) eqn:Hc; [eexists; reflexivity|].
+  destruct (role t); [|eexists; reflexivity].
+  exists (Ev (length (thr s))). cbn [step].
+  assert (E : nth_error (thr s) (length (thr s)) = None) by (apply nth_error_None; lia). rewrite E. reflexivity.
+Qed.
+
+Lemma run_role_sim : forall es s, exists es', run_role pd role s es = run pd s es'.
+Proof.
+  induction es as [|e es IH]; intros s; cbn [run_role fold_left].
+  - exists []. reflexivity.
+  - destruct (step_role_sim s e) as [e' E]. rewrite E. destruct (IH (step pd s e')) as [es' E'].
+    exists (e' :: es'). unfold run_role in E'. rewrite E'. reflexivity.
+Qed.
+
+(* a step of thread t leaves every other thread alone *)
+Lemma step_other : forall s t u, t <> u ->
+  nth_error (thr (step pd s (Ev t))) u = nth_error (thr s) u /\
+  nth_error (thr (step pd s (EvFail t))) u = nth_error (thr s) u.
+Proof.
+  intros s t u Hne. assert (N : Nat.eqb t u = false) by (apply Nat.eqb_neq; exact Hne).
+  split; cbn [step]; destruct (nth_error (thr s) t) as [th|]; cbn [tick thr]; try reflexivity.
+  - unfold thread_step. destruct (tpc th); cbn [thr];
+      repeat match goal with
+      | |- context [match cell s with _ => _ end] => destruct (cell s) as [[? ?]|]
+      | |- context [if ?b then _ else _] => destruct b
+      end; cbn [thr]; rewrite ?nth_error_set_nth, ?N; reflexivity.
+  - destruct (tpc th); cbn [tick thr]; rewrite ?nth_error_set_nth, ?N; reflexivity.
+Qed.
+
+(* a refresher round is never the first user of a scope: once launched, the scope has an entry *)
+Definition role_ok (s : sys) : Prop :=
+  forall t th, nth_error (thr s) t = Some th -> role t = true -> tpc th <> PIdle -> cell s <> None.
+
+Lemma role_ok_step : forall s e, role_ok s -> role_ok (step_role pd role s e).
+Proof.
+  intros s e R u thu Hu Hr Hn.
+  destruct (step_role_sim s e) as [e' E].
+  destruct (cell s) as [c|] eqn:Hc.
+  - rewrite E. apply cell_stays. rewrite Hc. discriminate.
+  - (* no entry yet: every refresher thread is idle, and stays idle through this step *)
+    exfalso. apply Hn.
+    assert (Idle : forall th, nth_error (thr s) u = Some th -> tpc th = PIdle).
+    { intros th H. destruct (tpc th) eqn:Hp; try reflexivity; exfalso; (eapply R; [exact H|exact Hr|rewrite Hp; discriminate|exact Hc]). }
+    destruct e as [t|t]; cbn [step_role] in Hu.
+    + destruct (Nat.eq_dec t u) as [->|Hne].
+      * destruct (nth_error (thr s) u) as [th|] eqn:Ht.
+        -- rewrite (Idle th eq_refl), Hc, Hr in Hu. cbn [tick thr] in Hu. rewrite Ht in Hu. inversion Hu; subst. apply Idle; reflexivity.
+        -- cbn [step] in Hu. rewrite Ht in Hu. cbn [tick thr] in Hu. congruence.
+      * assert (Hu' : nth_error (thr (step pd s (Ev t))) u = Some thu).
+        { destruct (nth_error (thr s) t) as [th|] eqn:Ht; [|exact Hu].
+          destruct (tpc th); try exact Hu. rewrite Hc in Hu. destruct (role t); [|exact Hu].
+          cbn [tick thr] in Hu. rewrite (proj1 (step_other s t u Hne)). exact Hu. }
+        rewrite (proj1 (step_other s t u Hne)) in Hu'. apply Idle; exact Hu'.
+    + destruct (Nat.eq_dec t u) as [->|Hne].
+      * cbn [step] in Hu. destruct (nth_error (thr s) u) as [th|] eqn:Ht; [|cbn [tick thr] in Hu; congruence].
+        rewrite (Idle th eq_refl) in Hu. cbn [tick thr] in Hu. rewrite Ht in Hu. inversion Hu; subst. apply Idle; reflexivity.
+      * rewrite (proj2 (step_other s t u Hne)) in Hu. apply Idle; exact Hu.
+Qed.
+
+Lemma role_ok_run : forall es s, role_ok s -> role_ok (run_role pd role s es).
+Proof. induction es as [|e es IH]; intros s R; cbn [run_role fold_left]; auto. apply IH, role_ok_step, R. Qed.
+
+Lemma role_ok_init : forall n, role_ok (init_sys n).
+Proof. intros n t th H _ Hn. apply nth_error_In, repeat_spec in H. subst th. cbn in Hn. congruence. Qed.
+
+(* hence a refresher round never takes the LoadOrStore branch *)
+Lemma role_never_installs : forall n es t th ts,
+  nth_error (thr (run_role pd role (init_sys n) es)) t = Some th -> role t = true -> tpc th <> PLoadOrStore ts.
+Proof.
+  intros n es. induction es as [|e es IH] using rev_ind; intros t th ts H Hr Hp.
+  - cbn in H. apply nth_error_In, repeat_spec in H. subst th. cbn in Hp. discriminate.
+  - unfold run_role in *. rewrite fold_left_app in H. cbn [fold_left] in H.
+    set (s := fold_left (step_role pd role) es (init_sys n)) in *.
+    assert (R : role_ok s) by (apply role_ok_run, role_ok_init).
+    (* the step that produced PLoadOrStore is a PMapLoad step of thread t with no entry: but t was launched *)
+    destruct e as [t'|t']; cbn [step_role] in H.
+    + destruct (Nat.eq_dec t' t) as [->|Hne].
+      * destruct (nth_error (thr s) t) as [th0|] eqn:Ht; [|cbn [step] in H; rewrite Ht in H; cbn [tick thr] in H; congruence].
+        destruct (tpc th0) eqn:Hp0.
+        -- destruct (cell s) eqn:Hc; [|rewrite Hr in H; cbn [tick thr] in H; rewrite Ht in H; inversion H; subst; congruence].
+           cbn [step] in H. rewrite Ht in H. unfold thread_step in H. rewrite Hp0 in H. cbn [thr] in H.
+           rewrite nth_error_set_nth, Nat.eqb_refl, Ht in H. inversion H; subst; cbn in Hp; discriminate.
+        -- cbn [step] in H. rewrite Ht in H. unfold thread_step in H. rewrite Hp0 in H. cbn [thr] in H.
+           rewrite nth_error_set_nth, Nat.eqb_refl, Ht in H. inversion H; subst; cbn in Hp; discriminate.
+        -- assert (C : cell s <> None) by (eapply R; [exact Ht|exact Hr|rewrite Hp0; discriminate]).
+           cbn [step] in H. rewrite Ht in H. unfold thread_step in H. rewrite Hp0 in H.
+           destruct (cell s) as [c|]; [|congruence]. cbn [thr] in H.
+           rewrite nth_error_set_nth, Nat.eqb_refl, Ht in H. inversion H; subst; cbn in Hp; discriminate.
+        -- exact (IH t th0 ts0 Ht Hr Hp0).
+        -- cbn [step] in H. rewrite Ht in H. unfold thread_step in H. rewrite Hp0 in H.
+           destruct (cell s) as [[o v]|]; cbn [thr] in H; rewrite ?nth_error_set_nth, ?Nat.eqb_refl, ?Ht in H; inversion H; subst; cbn in Hp; try discriminate; congruence.
+        -- cbn [step] in H. rewrite Ht in H. unfold thread_step in H. rewrite Hp0 in H.
+           destruct (ts0 <=? v); cbn [thr] in H; rewrite nth_error_set_nth, Nat.eqb_refl, Ht in H; inversion H; subst; cbn in Hp; discriminate.
+        -- cbn [step] in H. rewrite Ht in H. unfold thread_step in H. rewrite Hp0 in H.
+           destruct (cell s) as [[o' v']|]; [destruct (Nat.eqb o' o)|]; cbn [thr] in H; rewrite nth_error_set_nth, Nat.eqb_refl, Ht in H; inversion H; subst; cbn in Hp; discriminate.
+        -- cbn [step] in H. rewrite Ht in H. unfold thread_step in H. rewrite Hp0 in H. cbn [thr] in H.
+           rewrite nth_error_set_nth, Nat.eqb_refl, Ht in H. inversion H; subst; cbn in Hp; discriminate.
+        -- cbn [step] in H. rewrite Ht in H. unfold thread_step in H. rewrite Hp0 in H. cbn [thr] in H.
+           rewrite nth_error_set_nth, Nat.eqb_refl, Ht in H. inversion H; subst. congruence.
+      * assert (H' : nth_error (thr s) t = Some th).
+        { destruct (nth_error (thr s) t') as [th0|] eqn:Ht'; [|cbn [step] in H; rewrite Ht' in H; exact H].
+          destruct (tpc th0); try (rewrite (proj1 (step_other s t' t Hne)) in H; exact H).
+          destruct (cell s); [rewrite (proj1 (step_other s t' t Hne)) in H; exact H|].
+          destruct (role t'); [exact H|rewrite (proj1 (step_other s t' t Hne)) in H; exact H]. }
+        exact (IH t th ts H' Hr Hp).
+    + destruct (Nat.eq_dec t' t) as [->|Hne].
+      * cbn [step] in H. destruct (nth_error (thr s) t) as [th0|] eqn:Ht; [|cbn [tick thr] in H; congruence].
+        destruct (tpc th0) eqn:Hp0; cbn [tick thr] in H; try (rewrite Ht in H; inversion H; subst; exact (IH t th ts Ht Hr Hp)).
+        rewrite nth_error_set_nth, Nat.eqb_refl, Ht in H. inversion H; subst; cbn in Hp; discriminate.
+      * rewrite (proj2 (step_other s t' t Hne)) in H. exact (IH t th ts H Hr Hp).
+Qed.
+End Role.
